@@ -196,10 +196,11 @@ Proof.
   apply andb_true_iff in Ec as [Ec1 Ec2]. apply Z.ltb_lt in Ec1, Ec2.
   rewrite as_i32_id by (unfold I32_MIN, I32_MAX in *; lia).
   rewrite ck_i32_ok by (unfold I32_MIN, I32_MAX in *; lia). cbn [obind].
-  eapply okor_weaken.
+  eapply okor_bind.
   { apply mf_skip_spec; cbn [read_pos write_pos pending_size]; try assumption; try lia; try (left; reflexivity). }
   cbn [read_pos write_pos pending_size read_limit finishing]. intros r (A & B & C & D & E & K & Hbig & F).
   rewrite Z2Nat.id in * by lia.
+  destruct (Z.ltb_spec (pending_size d) (pending_size (fst r))); [lia|]. cbn [okor].
   assert (Hpb' : pending_size (fst r) < req_flush p).
   { destruct K as [K|K]; lia. }
   repeat split; try lia; try assumption.
@@ -2620,3 +2621,19 @@ Qed.
 Lemma fill_window_huge_slice_old_refuted :
   fill_len_old 655906 2147483648 = 2147483648 /\ 655906 < fill_len_old 655906 2147483648.
 Proof. vm_compute. split; reflexivity. Qed.
+
+(* ---------------------------------------------------------------------------------------------
+   The debug assertion of process_pending_bytes as it was (`pending_size < old_pending`) fails in
+   a reachable state: fast mode / HC4, one byte of preset dictionary pending, one more byte
+   written, finish(): the pending position still sees fewer than 4 bytes. *)
+Lemma process_pending_strict_assert_refuted :
+  match enc_new false false 4096 0 32 with
+  | Ok (p, _) =>
+      let d := mkLzd 0 1 true 2 1 in
+      match process_pending p d [] with
+      | Ok (d1, _) => pending_assert_old (pending_size d) (pending_size d1) = false
+      | _ => False
+      end
+  | _ => False
+  end.
+Proof. vm_compute. reflexivity. Qed.
